@@ -226,6 +226,9 @@ func (in *oracleIn) check() (vs []Verdict, stats map[string]int) {
 		if ta == nil && refused {
 			// the plan may have stopped between DROP TABLE t and RENAME new_t TO t
 			ta = in.after.Tables["new_"+n]
+			if ta != nil {
+				stats["partial-state-rows-under-temp-name"]++
+			}
 		}
 		if ta == nil {
 			vs = append(vs, Verdict{"kept-table-missing", fmt.Sprintf("mode=%s table=%s rows=%d", in.mode, n, len(tb.Rows))})
